@@ -133,8 +133,10 @@ REGISTRY: dict[str, dict] = {
                      "behaviour: observed by the watchdog, not proved (claimed partial)"],
     ),
     "C03": dict(
-        modules=["C03", "C06"],
-        theorems=[T + "C03_triples", T + "C03_quads", T + "C03_graphs", T + "C06_rows_independent_of_flow"],
+        modules=["C03", "C06", "C01Bytes", "WireRoundTrip"],
+        theorems=[T + "C03_triples", T + "C03_quads", T + "C03_graphs", T + "C06_rows_independent_of_flow",
+                  T + "C03_bytes_delimited", T + "written_rows_wireWF", T + "wire_delimited_roundtrip", T + "wire_single_concat",
+                  T + "namespace_run"],
         rule="SER (generic integration: stream_frames with sink/generator input, flat_/grouped_stream_to_file; namespace "
              "declarations on/off; 3 stream classes; presets down to 8/1/1 and 8/0/0; frame sizes 1..250; delimited and not) "
              "byte-exact against the model, then the REAL bytes are decoded by the Lean wire parser + Spec.runRows (no pyjelly, "
@@ -153,8 +155,9 @@ REGISTRY: dict[str, dict] = {
         assumptions=["the ContextVar carrying frame metadata is not modelled in Lean; that part of (b) is oracle-only"],
     ),
     "C01": dict(
-        modules=["C01", "C03", "C04", "C06", "C07"],
-        theorems=[T + "C01_triples_frames", T + "C01_quads_frames", T + "C01_graphs_frames", T + "C01_parseFrames_is_parseCore",
+        modules=["C01", "C01Bytes", "C03", "C04", "C06", "C07"],
+        theorems=[T + "C01_triples_bytes_delimited", T + "C01_triples_bytes_single", T + "C01_quads_bytes", T + "C01_graphs_bytes",
+                  T + "written_rows_wireWF", T + "C01_triples_frames", T + "C01_quads_frames", T + "C01_graphs_frames", T + "C01_parseFrames_is_parseCore",
                   T + "C03_triples", T + "C03_quads", T + "C03_graphs", T + "C04_decoder_refines_spec", T + "C07_frames_eq_rows",
                   T + "C06_nothing_left_in_flow", T + "C06_rows_independent_of_flow"],
         rule="SER+PARSE: generic serializer cases within the sizing hypothesis (each statement fits the tables), all entry "
